@@ -378,6 +378,12 @@ fn gen_assertion_slot(src: &mut Src, cfg: &mut GenCfg, depth: usize) -> Spec {
         // assertion carrying its own assertions
         let n = 1 + src.below(2);
         let inner: Vec<Spec> = (0..n).map(|_| gen_assertion_slot(src, cfg, depth + 1)).collect();
+        // ... whose own subject (the assertion proper) may in turn be obscured: what one gets by eliding /
+        // encrypting / compressing the assertion inside a salted assertion
+        if cfg.obscured && src.chance(50) {
+            let (k, n) = gen_obs(src);
+            a = Spec::Obscured(k, n, Box::new(a));
+        }
         a = Spec::Node(Box::new(a), inner);
     }
     if cfg.obscured && src.chance(28) {
